@@ -136,6 +136,20 @@ def judge_generated(params, sc):
     return bad
 
 
+def sensitive_not_vulnerable(sd):
+    """C16's first clause on a scenario description: sensitive hosts with no exploit (+ escalation) giving root"""
+    weak = []
+    cfg = dict(sd["hosts"])
+    for a, _ in sd["sens"]:
+        c = cfg[a]
+        def match(d, runs):
+            return runs[d["srv"] if "srv" in d else d["proc"]] and (d["os"] is None or c["os"][d["os"]])
+        esc = any(match(q, c["proc"]) and q["acc"] == 2 for q in sd["privescs"])
+        if not any(match(e, c["srv"]) and (e["acc"] == 2 or esc) for e in sd["exploits"]):
+            weak.append(list(a))
+    return weak
+
+
 def replay_plan(sc, plan_wire, sd):
     """step the model's plan through the real environment with the draw forced to succeed"""
     from nasim.envs.environment import NASimEnv
@@ -219,9 +233,17 @@ def one_fingerprint(job):
         elif job["kind"] == "bench":
             sc = nasim.make_benchmark_scenario(job["name"], seed=job["seed"])
             out.append(fingerprint(sc))
-        else:   # seeded trajectory on a benchmark
-            sc = nasim.make_benchmark_scenario(job["name"], seed=job["seed"])
+        else:   # seeded trajectory on a benchmark, or on a document after other environments were built
             from nasim.envs.environment import NASimEnv
+            if job["kind"] == "trajsd":
+                import ast
+                import scen
+                for b in job["before"]:
+                    e0 = NASimEnv(scen.sd_to_scenario(ast.literal_eval(b)))
+                    e0.reset()
+                sc = scen.sd_to_scenario(ast.literal_eval(job["sd"]))
+            else:
+                sc = nasim.make_benchmark_scenario(job["name"], seed=job["seed"])
             env = NASimEnv(sc, fully_obs=job["modes"][0], flat_actions=True, flat_obs=job["modes"][2])
             np.random.seed(job["seed"] + 1)
             h = hashlib.sha1()
@@ -272,17 +294,24 @@ def run(ctx, spec):
         psets.append((f"stress{j}", dict(num_hosts=nh, num_services=nsrv, num_os=nos, num_processes=npr,
                                          restrictiveness=restr, exploit_probs=1.0, privesc_probs=1.0,
                                          r_sensitive=100, r_user=100, step_limit=500)))
+    # host counts around the boundaries of the subnet arithmetic (multiples of 40, 41 and 5)
+    edge = [40, 41, 42, 43, 44, 79, 80, 81, 82, 83, 84, 85, 86, 120, 121, 122, 123, 124, 125]
+    for nh in (rng.sample(edge[:13], 3) if tier == "quick" else edge):
+        psets.append((f"hosts{nh}", dict(num_hosts=nh, num_services=3, num_os=2, num_processes=2, restrictiveness=2,
+                                         step_limit=1000)))
     seeds = list(range(sizes["seeds"]))
     if tier == "quick":
         psets = [x for x in psets if x[0] not in ("pocp-1-gen", "pocp-2-gen", "huge-gen")] + \
                 [x for x in psets if x[0] == "pocp-2-gen"]
     # ---- tie + per-scenario judgement
     cmds, meta = [], []
+    from nasim.scenarios.generator import ScenarioGenerator
+    reused = ScenarioGenerator()      # ONE generator object for the extra seeds of all small parameter sets
     for name, p in psets:
         more = list(range(len(seeds), sizes.get("seeds_small", len(seeds)))) if p["num_hosts"] <= 10 else []
-        for s in ((seeds + more) if not name.startswith("pocp") else seeds[:1]):
+        for s in ((seeds + more) if not name.startswith(("pocp", "hosts")) else seeds[:1]):
             try:
-                sc, oracle, calls = genrec.generate_recorded(p, s)
+                sc, oracle, calls = genrec.generate_recorded(p, s, generator=reused if s in more else None)
             except Inexact:
                 raise
             except Exception as e:   # noqa: BLE001
@@ -329,6 +358,9 @@ def run(ctx, spec):
             out["violations"].append(dict(kind="broken-correspondence", property=pid, failing_input_found=False,
                                           broken="generator correspondence (model does not finish on the recorded oracle)",
                                           what=f"model result {m}", **where))
+            if pid == "C16":
+                solv_cmds.append([15, scen.sd_wire(sd)])
+                solv_meta.append((where, sc, sd))
             continue
         stats["model_ok"] += 1
         mw = genrec.canonical_wire(m[1])
@@ -339,6 +371,9 @@ def run(ctx, spec):
                                           what=f"components {diff} differ; {m[2]} recorded draws left over",
                                           impl=str([iw[i] for i in diff])[:800], model=str([mw[i] for i in diff])[:800],
                                           **where))
+            if pid == "C16":      # the tie is broken: the implementation's own scenario is what gets decided
+                solv_cmds.append([15, scen.sd_wire(sd)])
+                solv_meta.append((where, sc, sd))
             continue
         if pid == "C15" and not m[3]:
             out["violations"].append(dict(kind="generator-params", property=pid, failing_input_found=True,
@@ -359,6 +394,14 @@ def run(ctx, spec):
         for (where, sc, sd), so in zip(solv_meta, souts):
             out["evaluations"] += 1
             solvable, plan = so[0], so[1]
+            if not where.get("shipped"):
+                weak = sensitive_not_vulnerable(sd)
+                if weak:
+                    out["violations"].append(dict(kind="scenario", property=pid, failing_input_found=True, signature=None,
+                                                  what=f"sensitive host(s) {weak} of the generated scenario are not "
+                                                       "vulnerable to any available exploit (followed by an available "
+                                                       "escalation when it grants only user access)",
+                                                  scenario=sd, **where))
             if not solvable:
                 out["violations"].append(dict(kind="scenario", property=pid, failing_input_found=True, signature=None,
                                               what="no action sequence reaches the goal (closure of the model)",
@@ -394,7 +437,26 @@ def run(ctx, spec):
         for name in list(bench)[:6]:
             jobs.append(dict(kind="bench", name=name, seed=3))
             jobs.append(dict(kind="traj", name=name, seed=5, steps=sizes["traj_steps"], modes=[rng.randrange(2), 1, rng.randrange(2)]))
+        # the same document after environments for OTHER scenarios were built in the process (the same names
+        # in another order; another layout): the trajectory must be the one of a process that built only it
+        for _ in range(sizes.get("seeds_small", 2) * 2):
+            sd0 = scen.random_sd(rng, max_subnets=3, max_size=2)
+            if sd0["nos"] + sd0["nsrv"] + sd0["nproc"] < 5:
+                continue
+            i0 = len(jobs)
+            common = dict(kind="trajsd", sd=repr(sd0), seed=5, steps=sizes["traj_steps"], modes=[rng.randrange(2), 1, rng.randrange(2)])
+            jobs.append(dict(common, before=[]))
+            jobs.append(dict(common, before=[repr(scen.permuted_sibling(sd0))], same_as=i0))
+            jobs.append(dict(common, before=[repr(scen.random_sd(rng, max_subnets=3, max_size=2)),
+                                             repr(scen.permuted_sibling(sd0))], same_as=i0))
         base = fingerprints_here(jobs)
+        for j, job in enumerate(jobs):
+            if "same_as" in job and base[j] != base[job["same_as"]]:
+                out["violations"].append(dict(kind="seeded-run", property=pid, failing_input_found=True, signature=None,
+                                              job={k: v for k, v in job.items()}, run="same process, other environments built first",
+                                              what="the same scenario and seeded action sequence give a different trajectory "
+                                                   "when environments for other scenarios (same names in another order / "
+                                                   "another layout) were built in the process first"))
         again = fingerprints_here(jobs)
         out["evaluations"] += 2 * len(jobs)
         runs = {"same-process": again}
@@ -415,6 +477,29 @@ def run(ctx, spec):
         stats["c14_jobs"] = len(jobs)
         stats["c14_runs"] = list(runs)
         out["samples"].append(dict(job=jobs[0], fingerprint=base[0]))
+    # ---- C15: the deterministic skeleton (subnet sizes, topology) for EVERY number of hosts in a range
+    if pid == "C15":
+        from nasim.scenarios.generator import ScenarioGenerator
+        nhs = list(range(3, 330 if tier == "quick" else 1300))
+        cmd16 = [16, nhs]
+        sk = run_driver([cmd16])[0]
+        cmds.insert(0, [16, nhs[:25] + nhs[77:84]])
+        mouts.insert(0, sk[:25] + sk[77:84])
+        g = ScenarioGenerator()
+        bad_n = []
+        for nh, m in zip(nhs, sk):
+            g._generate_subnets(nh)
+            g._generate_topology()
+            got = [[int(x) for x in g.subnets], [[int(x) for x in row] for row in np.asarray(g.topology)]]
+            out["evaluations"] += 1
+            if got != m or sum(got[0]) - 1 != nh:
+                bad_n.append((nh, got[0], m[0]))
+        stats["skeleton_sweep_hosts"] = [nhs[0], nhs[-1]]
+        for nh, got, want in bad_n[:3]:
+            out["violations"].append(dict(kind="generator-params", property=pid, failing_input_found=True, signature=None,
+                                          params=dict(num_hosts=nh), seed=None,
+                                          what=f"num_hosts={nh}: the generator's subnet sizes {got} (sum {sum(got) - 1} "
+                                               f"hosts) or topology differ from the prescribed skeleton {want}"))
     # ---- C15: documented-valid parameter sets that cannot finish (known findings D7 / D8), under a watchdog
     if pid == "C15":
         probes = [("D7", dict(num_hosts=5, num_services=2, alpha_V=1.0), "alpha_V-equals-one"),
